@@ -25,7 +25,7 @@ ENTRY = {
                      "headers are not modified after the status was written"],
         quick=[REPLAY,
                R("sweep", "^(TestKinds|TestSweep)$", timeout=300),
-               R("random", "^TestRandom$", checks=60000, timeout=600)],
+               R("random", "^TestRandom$", checks=150000, timeout=600)],
         thorough=[REPLAY,
                   R("sweep", "^(TestKinds|TestSweep)$", timeout=600),
                   R("random", "^TestRandom$", checks=250000, shards=16, timeout=3000)],
